@@ -27,9 +27,15 @@ def evaluate(species, x0, T, P, controls=(1e20, 1e-10, 1000), scalars=SCALARS):
         nd = np.asarray(m.calculate_composition(), dtype=float)
         out = {}
         if not any("Minimiser could not find" in str(x.message) for x in w):
-            hs = np.asarray(m.calculate_species_enthalpies(), dtype=float)
-            for k in scalars:
-                out[k] = float(getattr(m, k)())
+            try:
+                hs = np.asarray(m.calculate_species_enthalpies(), dtype=float)
+                for k in scalars:
+                    out[k] = float(getattr(m, k)())
+            except Exception:  # noqa: BLE001
+                # an exception that follows an announced non-convergence (e.g. of a solve at a perturbed temperature) is an announced failure
+                if any("Minimiser could not find" in str(x.message) for x in w):
+                    return nd, {}, True
+                raise
             out["species_enthalpies"] = hs
             # per-species share of the line emission, to know whether it is carried by resolved species
             from minplascalc import units as u
